@@ -108,7 +108,10 @@ def run(spec, tier, seed, replay=None):
                 stats["cases"] += r.cases
                 stats["ops"] += r.ops
                 for c, a in zip(cases, r.impl_out):
-                    k = spec.nontrivial(c, a)
+                    try:
+                        k = spec.nontrivial(c, a) if a else None
+                    except Exception:
+                        k = None
                     if k is not None:
                         stats["nontrivial"].add(k)
                     for l in c[1:]:
@@ -136,7 +139,7 @@ def run(spec, tier, seed, replay=None):
             t = time.time()
             run_round(_corpus_cases(pid), "corpus")
             gen_tier = tier
-            if changed_sources and tier == "quick":
+            if changed_sources and tier == "quick" and not reported:
                 ctx.say("modelled sources changed since the model was last reviewed against them "
                         f"({', '.join(changed_sources)}): validating the model at thorough depth")
                 gen_tier = "thorough"
